@@ -37,6 +37,89 @@ let handle kind a =
          | Ok (f, c) ->
              let fs = (match f with Vcf -> "v" | Bcf -> "b") in
              Some ("Ok:" ^ fs ^ ":" ^ comp_chr fonly c))
+  | "wk" | "wkv" | "wp" | "wpv" ->
+      let api = if a.(0) = "a" then Async else Sync in
+      let cfg = a.(1) in
+      let aname = function KSam -> "Sam" | KSamGz -> "SamGz" | KBam -> "Bam" | KBamRaw -> "BamRaw" | KCram -> "Cram" in
+      let vname = function KBcf -> "Bcf" | KBcfRaw -> "BcfRaw" | KVcf -> "Vcf" | KVcfGz -> "VcfGz" in
+      let show_a = function Ok k -> "Ok:" ^ aname k | Err e -> "Err:" ^ str_err "Other" e in
+      (match kind with
+       | "wk" -> Some (show_a (build_writer_a api (comp_of cfg.[0]) (afmt_of cfg.[1])))
+       | "wp" -> Some (show_a (build_writer_path_a api (comp_of cfg.[0]) (afmt_of cfg.[1]) (bytes_of_hex a.(2))))
+       | "wkv" -> Some ("Ok:" ^ vname (build_writer_v (comp_of cfg.[0]) (vfmt_of cfg.[1])))
+       | _ -> Some ("Ok:" ^ vname (build_writer_path_v (comp_of cfg.[0]) (vfmt_of cfg.[1]) (bytes_of_hex a.(2)))))
+  | "ix" | "iv" ->
+      let from_path = a.(0) = "p" in
+      let cfg = a.(1) in
+      let preset = (match a.(3) with "b" -> PBinning | "c" -> PCrai | _ -> PNone) in
+      let st c = (match c with 'v' -> FValid | 'e' -> FBad EUnexpectedEof | 'd' -> FBad EInvalidData
+                              | 'o' -> FBad EOther | _ -> FMissing) in
+      let states = a.(8) in
+      let w = bytes_of_hex a.(5) in
+      let infl = { avail = bytes_of_hex a.(6); stop = stop_of a.(7) } in
+      let ioerr_str = function ENotFound -> "NotFound" | EUnexpectedEof -> "UnexpectedEof" | EInvalidInput -> "InvalidInput"
+                             | EInvalidData -> "InvalidData" | EOther -> a.(7) in
+      let xname = function XBai -> "bai" | XCsi -> "csi" | XTbi -> "tbi" | XCrai -> "crai" in
+      let sname = function FromBuilder -> "set" | FromFile x -> xname x in
+      if kind = "ix" then
+        let d = (function XBai -> st states.[0] | XCsi -> st states.[1] | XCrai -> st states.[2] | XTbi -> FMissing) in
+        (match indexed_build_a from_path (comp_of cfg.[0]) (afmt_of cfg.[1]) preset w infl d with
+         | IErr e -> Some ("Err:" ^ ioerr_str e)
+         | IOk (k, s) ->
+             let kn = (match k with KSam -> "Sam" | KSamGz -> "SamGz" | KBam -> "Bam" | KBamRaw -> "BamRaw" | KCram -> "Cram") in
+             Some ("Ok:" ^ kn ^ ":" ^ sname s))
+      else
+        let d = (function XTbi -> st states.[0] | XCsi -> st states.[1] | _ -> FMissing) in
+        (match indexed_build_v from_path (comp_of cfg.[0]) (vfmt_of cfg.[1]) preset w infl d with
+         | IErr e -> Some ("Err:" ^ ioerr_str e)
+         | IOk (k, s) ->
+             let kn = (match k with KBcf -> "Bcf" | KBcfRaw -> "BcfRaw" | KVcf -> "Vcf" | KVcfGz -> "VcfGz") in
+             Some ("Ok:" ^ kn ^ ":" ^ sname s))
+  | "vf" ->
+      let k = (match a.(0) with "Bcf" -> KBcf | "BcfRaw" -> KBcfRaw | "VcfGz" -> KVcfGz | _ -> KVcf) in
+      let hlen = int_of_string a.(2) and rlen = int_of_string a.(3) in
+      let zeros n = List.init n (fun _ -> N0) in
+      let ops = List.filter_map (fun c -> match c with
+          | 'H' -> Some (OpWrite (zeros hlen)) | 'R' -> Some (OpWrite (zeros rlen)) | 'F' -> Some OpFinish | _ -> None)
+          (List.init (String.length a.(1)) (String.get a.(1))) in
+      let st = vw_run k ops in
+      let show st = Printf.sprintf "%d/%d/%d/%d" (List.length st.vw_delivered) (int_of_nat st.vw_blocks)
+                      (int_of_nat st.vw_eofs) (if st.vw_fin then 1 else 0) in
+      Some ("Ok:" ^ show st ^ ":" ^ show (vw_drop st))
+  | "fw" | "dw" | "dwf" | "dwv" | "dwvf" ->
+      let script_of s =
+        if s = "_" then [] else
+        List.map (fun t -> if t = "i" then Interrupted
+                           else Deliver (nat_of_int (int_of_string (String.sub t 1 (String.length t - 1)))))
+          (String.split_on_char ',' s) in
+      let repaired = a.(0) = "fix" in
+      if kind = "fw" then
+        (match first_window repaired { s_data = bytes_of_hex a.(1); s_script = script_of a.(2) } with
+         | WOk w -> Some ("Ok:" ^ hex_of_bytes w)
+         | WInterrupted -> Some "Err:Interrupted"
+         | WNoFuel -> Some "NoFuel")
+      else begin
+        let cfg = a.(1) in
+        let src = { s_data = bytes_of_hex a.(2); s_script = script_of a.(3) } in
+        let infl = { avail = bytes_of_hex a.(4); stop = stop_of a.(5) } in
+        let fonly = kind = "dwf" || kind = "dwvf" in
+        if kind = "dw" || kind = "dwf" then
+          (match build_src_a repaired (comp_of cfg.[0]) (afmt_of cfg.[1]) (fun _ -> infl) src with
+           | BOk (f, c) ->
+               let fs = (match f with Sam -> "s" | Bam -> "b" | Cram -> "c") in
+               Some ("Ok:" ^ fs ^ ":" ^ comp_chr fonly c)
+           | BErr e -> Some ("Err:" ^ str_err a.(5) e)
+           | BInterrupted -> Some "Err:Interrupted"
+           | BNoFuel -> Some "NoFuel")
+        else
+          (match build_src_v repaired (comp_of cfg.[0]) (vfmt_of cfg.[1]) (fun _ -> infl) src with
+           | BOk (f, c) ->
+               let fs = (match f with Vcf -> "v" | Bcf -> "b") in
+               Some ("Ok:" ^ fs ^ ":" ^ comp_chr fonly c)
+           | BErr e -> Some ("Err:" ^ str_err a.(5) e)
+           | BInterrupted -> Some "Err:Interrupted"
+           | BNoFuel -> Some "NoFuel")
+      end
   | _ -> None
 
 let () = run_driver handle
